@@ -9,7 +9,8 @@ SPEC = dict(
     rule="random trees (1-5 bodies quick, 1-10 thorough; all 18 built-in types, random frames/directions, quaternion mode, "
          "gravity) with four variant models each (Euler-converted state, reversed twin, FunctionBased mirrors, relocated), plus "
          "n/3 Euler->quaternion conversions of Ball/Free/Ellipsoid/LineOrientation/FreeLine at arbitrary angles, n/3 FunctionBased "
-         "mirrors of single mobilizers (8 types x both directions), n/3 re-rooted forward/reversed twins (17 types x both "
+         "mirrors of single mobilizers (8 types x both directions), n/6 multi-argument FunctionBased families (mixed second partials; "
+         "fbm.* tags, Coriolis and acceleration level), n/3 re-rooted forward/reversed twins (17 types x both "
          "options) from VERIF_SEED; distinct = distinct records",
     partial="This property is established mainly by PAIRWISE COMPARISON OF C++ MODELS (P-lines): conversion, reversed twin, "
             "re-rooted twin, FunctionBased mirror and relocation preserve body poses, velocities and accelerations.  "
